@@ -114,6 +114,16 @@ fn apply_bsd0_patch(patch: &PatchFile, base_data: &[u8]) -> Result<Vec<u8>> {
         patch.data.len()
     );
 
+    // The decompressed size comes from the (untrusted) patch header: hold it to the crate's own
+    // default limit for one decompressed file before any buffer of that size is requested
+    let max_size = crate::security::SecurityLimits::default().max_decompressed_size;
+    if patch.header.patch_data_size as u64 > max_size || patch.header.size_after as u64 > max_size {
+        return Err(Error::invalid_format(format!(
+            "BSD0 patch declares sizes beyond the {max_size}-byte limit: patch data {}, patched file {}",
+            patch.header.patch_data_size, patch.header.size_after
+        )));
+    }
+
     let bsdiff_data = crate::compression::rle::decompress(
         &patch.data,
         patch.header.patch_data_size as usize,
@@ -137,9 +147,26 @@ fn apply_bsd0_patch(patch: &PatchFile, base_data: &[u8]) -> Result<Vec<u8>> {
         )));
     }
 
-    let ctrl_block_size = reader.read_u64::<LittleEndian>()? as usize;
-    let data_block_size = reader.read_u64::<LittleEndian>()? as usize;
-    let new_file_size = reader.read_u64::<LittleEndian>()? as usize;
+    let ctrl_block_size = reader.read_u64::<LittleEndian>()?;
+    let data_block_size = reader.read_u64::<LittleEndian>()?;
+    let new_file_size = reader.read_u64::<LittleEndian>()?;
+
+    // The three sizes are untrusted 64-bit values: they must fit the decompressed patch data
+    // (32-byte header + control block + data block <= total), checked without wrapping
+    let available = (bsdiff_data.len() as u64).saturating_sub(32);
+    if ctrl_block_size > available || data_block_size > available - ctrl_block_size {
+        return Err(Error::invalid_format(format!(
+            "BSD0 block sizes exceed patch data: ctrl {ctrl_block_size} + data {data_block_size} > {available}"
+        )));
+    }
+    if new_file_size > u32::MAX as u64 {
+        return Err(Error::invalid_format(format!(
+            "BSD0 new file size {new_file_size} does not fit the patch header"
+        )));
+    }
+    let ctrl_block_size = ctrl_block_size as usize;
+    let data_block_size = data_block_size as usize;
+    let new_file_size = new_file_size as usize;
 
     // Verify new file size matches header
     if new_file_size != patch.header.size_after as usize {
